@@ -86,11 +86,19 @@ BcdDigitsOk(fb) == \A j \in 1..NibbleCount(Len(fb)) : Nibbles(fb)[j] <= 9
 FieldOk(cfg, mem) ==
     IF cfg.t = "Bcd" THEN BcdDigitsOk(FieldBits(cfg, mem)) ELSE TRUE
 
+(* Read() as a 64-bit two's-complement bit vector (all types but Bcd) *)
+DecodeBits64(cfg, fb) ==
+    IF IsSigned(cfg.t) THEN SignExtend(fb, 64) ELSE ZeroExtend(fb, 64)
+
+(* Read() of a Bcd as two base-10^8 halves <<low 8 digits, high 8 digits>> *)
+DecodeBcdDec(fb) ==
+    LET nb == Nibbles(fb)
+    IN  <<DecimalValue(nb, 1, 8), DecimalValue(nb, 9, 16)>>
+
 (* Read() as an 8-limb number = the 64-bit two's-complement image of the value *)
 DecodeLimbs(cfg, fb) ==
-    CASE cfg.t = "Bcd" -> DigitsToLimbs(Nibbles(fb), 8)
-      [] IsSigned(cfg.t) -> BitsToLimbs(SignExtend(fb, 64))
-      [] OTHER -> BitsToLimbs(ZeroExtend(fb, 64))
+    IF cfg.t = "Bcd" THEN DigitsToLimbs(Nibbles(fb), 8)
+    ELSE BitsToLimbs(DecodeBits64(cfg, fb))
 
 ReadLimbs(cfg, mem) == DecodeLimbs(cfg, FieldBits(cfg, mem))
 
@@ -129,7 +137,7 @@ BcdMaxLimbs(w) == DigitsToLimbs(BcdMaxDigits(w), 9)
 LimbsToV(limbs9) == LimbsToBits(limbs9)    \* 9 limbs = 72 bits, non-negative
 
 MinV(cfg) ==
-    IF IsSigned(cfg.t) THEN [k \in 1..VW |-> IF k >= cfg.w THEN 1 ELSE 0]   \* -2^(w-1)
+    IF IsSigned(cfg.t) THEN MaskRange(VW, cfg.w - 1, VW)                    \* -2^(w-1)
     ELSE Zeros(VW)
 
 MaxV(cfg) ==
@@ -149,7 +157,7 @@ SymValue(cfg, s) ==
       [] s = "max+1" -> Inc(MaxV(cfg))
       [] s = "2^w-1" -> MaskRange(VW, 0, cfg.w)
       [] s = "2^w" -> OneHot(VW, cfg.w)
-      [] s = "i64min" -> [k \in 1..VW |-> IF k >= 64 THEN 1 ELSE 0]
+      [] s = "i64min" -> MaskRange(VW, 63, VW)
       [] s = "i64max" -> MaskRange(VW, 0, 63)
       [] s = "u64max" -> MaskRange(VW, 0, 64)
       [] s = "9s" -> LimbsToV(DigitsToLimbs([j \in 1..NibbleCount(cfg.w) |-> 9], 9))
@@ -168,7 +176,7 @@ Representable(cfg, v) ==
 EncodeField(cfg, v) ==
     IF cfg.t = "Bcd"
     THEN LET dg == LimbsToDigits(BitsToLimbs(v), NibbleCount(cfg.w))
-         IN  [k \in 1..cfg.w |-> (dg[((k - 1) \div 4) + 1] \div Pow2((k - 1) % 4)) % 2]
+         IN  NibblesToBits(dg, cfg.w)
     ELSE Truncate(v, cfg.w)
 
 (* CouldWriteValue / TryToWrite on a complete field.  Result:               *)
@@ -192,34 +200,54 @@ VARIABLES cfg, mem, last
 
 vars == <<cfg, mem, last>>
 
+NoCfg == [t |-> "none"]
+
+(* Two-step set-up (choose a field, then load container contents) so that    *)
+(* TLC's workers share the state space.                                      *)
 Init ==
-    /\ cfg \in Cfgs
-    /\ mem \in MemOf(cfg)
-    /\ last = [op |-> "init"]
+    /\ cfg = NoCfg
+    /\ mem = <<>>
+    /\ last = [op |-> "boot"]
+
+Choose ==
+    /\ last.op = "boot"
+    /\ cfg' \in Cfgs
+    /\ mem' = <<>>
+    /\ last' = [op |-> "chosen"]
+
+Load ==
+    /\ last.op = "chosen"
+    /\ mem' \in MemOf(cfg)
+    /\ last' = [op |-> "init"]
+    /\ UNCHANGED cfg
+
+Loaded == last.op \notin {"boot", "chosen"}
 
 Read ==
+    /\ Loaded
     /\ last' = [op |-> "read", ok |-> FieldOk(cfg, mem), val |-> ReadLimbs(cfg, mem)]
     /\ UNCHANGED <<cfg, mem>>
 
 Write(s) ==
-    LET v == SymValue(cfg, s)
-        r == WriteResult(cfg, mem, v)
-    IN  /\ mem' = r.mem
-        /\ last' = [op |-> "write", sym |-> s, could |-> r.could, pre |-> mem]
-        /\ UNCHANGED cfg
+    /\ Loaded
+    /\ LET v == SymValue(cfg, s)
+           r == WriteResult(cfg, mem, v)
+       IN  /\ mem' = r.mem
+           /\ last' = [op |-> "write", sym |-> s, could |-> r.could, pre |-> mem]
+           /\ UNCHANGED cfg
 
-Next == Read \/ \E s \in Syms : Write(s)
+Next == Choose \/ Load \/ Read \/ \E s \in Syms : Write(s)
 
 Spec == Init /\ [][Next]_vars
 
 (***************************************************************************)
 (* Properties                                                              *)
 (***************************************************************************)
-TypeOK == LegalCfg(cfg) /\ IsMem(cfg, mem)
+TypeOK == Loaded => LegalCfg(cfg) /\ IsMem(cfg, mem)
 
 (* what Read returns depends on the field's bits only, lies in the type's   *)
 (* range, and the documented value type can hold it                         *)
-ReadInRange ==
+ReadInRange == Loaded =>
     LET fb == FieldBits(cfg, mem)
         v64 == LimbsToBits(ReadLimbs(cfg, mem))
         v == SignExtend(v64, VW)
@@ -231,18 +259,28 @@ ReadInRange ==
 
 (* byte order: a big-endian container is the little-endian container over   *)
 (* the reversed bytes; a one-byte container reads the same in every order   *)
-OrderDuality ==
+OrderDuality == Loaded =>
     LET other == [cfg EXCEPT !.ord = IF cfg.ord = "BE" THEN "LE" ELSE "BE"]
     IN  /\ ReadLimbs(cfg, mem) = ReadLimbs(other, ReverseSeq(mem))
         /\ (cfg.c = 8 => ReadLimbs(cfg, mem) = ReadLimbs(other, mem))
 
 (* encode . decode = identity on Ok contents; store . load = identity       *)
-CodecInverse ==
+CodecInverse == Loaded =>
     LET fb == FieldBits(cfg, mem)
         v == IF IsSigned(cfg.t) THEN SignExtend(LimbsToBits(ReadLimbs(cfg, mem)), VW)
              ELSE ZeroExtend(LimbsToBits(ReadLimbs(cfg, mem)), VW)
     IN  /\ StoreField(cfg, mem, fb) = mem
         /\ FieldOk(cfg, mem) => EncodeField(cfg, v) = fb
+
+(* the two renderings of a Bcd value (binary limbs, decimal halves) agree *)
+BcdFormsAgree == (Loaded /\ cfg.t = "Bcd") =>
+    LET fb == FieldBits(cfg, mem)
+        dg == LimbsToDigits(ReadLimbs(cfg, mem), 16)
+        dd == DecodeBcdDec(fb)
+    IN  FieldOk(cfg, mem) =>
+          /\ DecimalValue(dg, 1, 8) = dd[1]
+          /\ DecimalValue(dg, 9, 16) = dd[2]
+          /\ SubSeq(dg, 1, NibbleCount(cfg.w)) = Nibbles(fb)
 
 (* after any step that was a write: range check <=> representable; success  *)
 (* => read-back gives v and only the field's bits changed; failure =>       *)
@@ -261,7 +299,7 @@ WritePost ==
 
 (* the symbolic landmarks are what their names say (checked through the     *)
 (* order relation, so independent of the closed forms used to build them)   *)
-SymSane ==
+SymSane == Loaded =>
     LET mn == MinV(cfg)
         mx == MaxV(cfg)
     IN  /\ CmpS(mn, mx) <= 0
